@@ -366,6 +366,7 @@ type FuncContract struct {
 	Why      string // reason when trusted
 	Strings  string
 	NoInline bool
+	Inline     []string // callees to inline although they have a contract (lemma functions that prove laws about them)
 	AppendView bool // state the element view of append results with sla-triggers (needed for quantified slice facts)
 	Line     int
 }
@@ -408,7 +409,7 @@ type Contracts struct {
 }
 
 var clauseKw = map[string]bool{"uses": true, "law": true, "defines": true, "assumes": true, "requires": true, "ensures": true, "assigns": true, "loop": true, "decreases": true, "property": true,
-	"pure": true, "appendview": true, "trusted": true, "strings": true, "noinline": true, "params": true}
+	"pure": true, "inline": true, "appendview": true, "trusted": true, "strings": true, "noinline": true, "params": true}
 
 func parseProps(s *string) []string {
 	// leading "[C01,C02]" tag
@@ -513,6 +514,10 @@ func loadContracts(path string) (*Contracts, error) {
 			cur.Pure = true
 		case "appendview":
 			cur.AppendView = true
+		case "inline":
+			for _, k := range strings.Split(rest, ",") {
+				cur.Inline = append(cur.Inline, strings.TrimSpace(k))
+			}
 		case "noinline":
 			cur.NoInline = true
 		case "trusted":
